@@ -212,7 +212,20 @@ func buildReachGraph(P *Program) *reachGraph {
 							note("var."+gl.Name(), fn, P.fset.Position(in.Pos()).String()+" (address stored)")
 							note("nonnil:var."+gl.Name(), fn, P.fset.Position(in.Pos()).String()+" (address stored)")
 						}
+					case *ssa.FieldAddr:
+						// a field of a struct-typed variable: the field writers are tracked per field (T.f)
+						if _, isStruct := deref(gl.Type()).Underlying().(*types.Struct); !isStruct {
+							note("var."+gl.Name(), fn, P.fset.Position(in.Pos()).String()+" (component address taken)")
+						}
 					default:
+						if ci, isCall := in.(ssa.CallInstruction); isCall {
+							if _, isStruct := deref(gl.Type()).Underlying().(*types.Struct); isStruct {
+								if callee := ci.Common().StaticCallee(); callee != nil && len(callee.Blocks) > 0 && P.isYqFunc(callee) {
+									// &structVar handed to a yq function: whatever it stores is a field store (T.f)
+									continue
+								}
+							}
+						}
 						// &global passed on, or a component address taken: a store through it changes the variable
 						note("var."+gl.Name(), fn, P.fset.Position(in.Pos()).String()+" (address taken)")
 						note("nonnil:var."+gl.Name(), fn, P.fset.Position(in.Pos()).String()+" (address taken)")
@@ -245,21 +258,8 @@ func buildReachGraph(P *Program) *reachGraph {
 					if isFreshAlloc(x.X) && fieldAddrOnlyStoredTo(x) {
 						continue
 					}
-					for _, r := range *x.Referrers() {
-						switch u := r.(type) {
-						case *ssa.Store:
-							if u.Addr == x {
-								note(key, fn, P.fset.Position(u.Pos()).String())
-							} else {
-								note(key, fn, P.fset.Position(x.Pos()).String()+" (address stored)")
-							}
-						case *ssa.UnOp, *ssa.DebugRef:
-						case *ssa.FieldAddr, *ssa.IndexAddr:
-							// address of a nested component: a store through it changes this field's value
-							note(key, fn, P.fset.Position(x.Pos()).String()+" (component address taken)")
-						default:
-							note(key, fn, P.fset.Position(x.Pos()).String()+" (address escapes)")
-						}
+					if where := addrWritten(P, x, 0); where != "" {
+						note(key, fn, where)
 					}
 				case *ssa.Store:
 					if gl, ok := x.Addr.(*ssa.Global); ok {
@@ -271,8 +271,8 @@ func buildReachGraph(P *Program) *reachGraph {
 					}
 					// whole-struct store through a pointer
 					if st, ok := deref(x.Addr.Type()).Underlying().(*types.Struct); ok {
-						if _, isAlloc := x.Addr.(*ssa.Alloc); isAlloc {
-							continue
+						if rootedAtAlloc(x.Addr) {
+							continue // a component of an object this function has just allocated: initialisation
 						}
 						owner := P.relType(deref(x.Addr.Type()))
 						for i := 0; i < st.NumFields(); i++ {
@@ -284,6 +284,57 @@ func buildReachGraph(P *Program) *reachGraph {
 		}
 	}
 	return G
+}
+
+// addrWritten: may something be stored through address v (a field or element address), or may the address
+// travel somewhere this analysis does not follow? Loads and addresses of sub-components that are themselves
+// only read do not count.
+func addrWritten(P *Program, v ssa.Value, depth int) string {
+	refs := v.Referrers()
+	if refs == nil {
+		return ""
+	}
+	if depth > 5 {
+		return P.fset.Position(v.Pos()).String() + " (nested component address)"
+	}
+	for _, r := range *refs {
+		switch u := r.(type) {
+		case *ssa.Store:
+			if u.Addr == v {
+				return P.fset.Position(u.Pos()).String()
+			}
+			return P.fset.Position(v.Pos()).String() + " (address stored)"
+		case *ssa.UnOp, *ssa.DebugRef:
+		case *ssa.FieldAddr:
+			if w := addrWritten(P, u, depth+1); w != "" {
+				return w
+			}
+		case *ssa.IndexAddr:
+			if w := addrWritten(P, u, depth+1); w != "" {
+				return w
+			}
+		default:
+			return P.fset.Position(v.Pos()).String() + " (address escapes)"
+		}
+	}
+	return ""
+}
+
+// rootedAtAlloc: the address is a (nested) component of an allocation made by this function.
+func rootedAtAlloc(v ssa.Value) bool {
+	for i := 0; i < 6; i++ {
+		switch x := v.(type) {
+		case *ssa.Alloc:
+			return true
+		case *ssa.FieldAddr:
+			v = x.X
+		case *ssa.IndexAddr:
+			v = x.X
+		default:
+			return false
+		}
+	}
+	return false
 }
 
 func isFreshAlloc(v ssa.Value) bool {
